@@ -200,9 +200,11 @@ fn prepare(c: &BrCase, c10: bool) -> Option<Prep> {
 // ------------------------------------------------------------------------------------------
 // a trailing "+" = the same instruction with one extra byte appended to its data (Anchor ignores
 // trailing bytes, so it dispatches identically; validators that compare whole data would not)
-pub const C10_SYMS: &[&str] = &["cb", "sA", "sV", "eA", "eV", "wA", "rA", "bA", "dA", "irW", "kr", "js", "sd", "un", "fsA", "feA", "p:sA", "p:eA", "p:wA", "p:rA", "wBig", "sA+", "sV+", "eA+"];
-// "feV&A" = end for account V with account U appended as a trailing (ignored) remaining account
-pub const C11_SYMS: &[&str] = &["fs0", "fs1", "fs2", "fs3", "fs4", "fs9", "feA", "feV", "bBig", "bSm", "wBig", "dA", "rAll", "lqA", "bkA", "sA", "eA", "tA", "cA", "p:fs2", "p:feA", "p:bBig", "cb", "feV&A", "feA+", "fsH0", "fsH1", "fsG1"];
+pub const C10_SYMS: &[&str] = &["cb", "sA", "sV", "eA", "eV", "wA", "rA", "bA", "dA", "irW", "kr", "js", "sd", "un", "fsA", "feA", "p:sA", "p:eA", "p:wA", "p:rA", "wBig", "sA+", "sV+", "eA+", "eA0"];
+// "feV&A" = end for account V with account U appended as a trailing (ignored) remaining account;
+// "feA0" / "feA1" = a genuine end for U whose observation accounts are missing altogether / lack the borrowed bank
+// (the risk engine cannot be built: the end must fail, never pass unchecked)
+pub const C11_SYMS: &[&str] = &["fs0", "fs1", "fs2", "fs3", "fs4", "fs9", "feA", "feV", "bBig", "bSm", "wBig", "dA", "rAll", "lqA", "bkA", "sA", "eA", "tA", "cA", "p:fs2", "p:feA", "p:bBig", "cb", "feV&A", "feA+", "fsH0", "fsH1", "fsG1", "feA0", "feA1"];
 
 /// end index named by a flash-loan start symbol: "fs<k>" = k, "fsH<k>" = 65536 + k, "fsG<k>" = 2^32 + k
 /// (indices that alias position k if the program narrows the 64-bit argument to 16 / 32 bits)
@@ -245,6 +247,9 @@ fn build_ix(p: &Prep, sym: &str) -> Instruction {
         "sV" => w.ix_start_liquidation(va, p.l.auth),
         "eA" => w.ix_end_liquidation(ua, p.l.auth, w.risk_metas(&ua, None, None)),
         "eV" => w.ix_end_liquidation(va, p.l.auth, w.risk_metas(&va, None, None)),
+        // a genuine end for U whose observation accounts are missing: the end-of-bracket health comparison cannot be
+        // made, so it must fail (never pass unchecked)
+        "eA0" => w.ix_end_liquidation(ua, p.l.auth, vec![]),
         "wA" => w.ix_withdraw_with(ua, p.l.auth, ab, p.l.tokens[ab], p.w_amt, None, w.risk_metas(&ua, None, None)),
         "wBig" => w.ix_withdraw_with(ua, p.l.auth, ab, p.l.tokens[ab], p.w_amt.saturating_mul(3), None, w.risk_metas(&ua, None, None)),
         "rA" => w.ix_repay(ua, p.l.auth, lb, p.l.tokens[lb], p.r_amt, None),
@@ -264,6 +269,8 @@ fn build_ix(p: &Prep, sym: &str) -> Instruction {
         "fsA" => w.ix_start_flashloan(ua, p.u.auth, 3),
         "feA" => w.ix_end_flashloan(ua, p.u.auth, w.risk_metas(&ua, Some(w.banks[lb].key), None)),
         "feV" => w.ix_end_flashloan(va, p.v.auth, w.risk_metas(&va, None, None)),
+        "feA0" => w.ix_end_flashloan(ua, p.u.auth, vec![]),
+        "feA1" => w.ix_end_flashloan(ua, p.u.auth, w.risk_metas(&ua, None, Some(w.banks[lb].key))),
         "fs0" | "fs1" | "fs2" | "fs3" | "fs4" | "fs9" | "fsH0" | "fsH1" | "fsG1" => w.ix_start_flashloan(ua, p.u.auth, fs_index(sym).unwrap()),
         "bBig" => w.ix_borrow_with(ua, p.u.auth, lb, p.u.tokens[lb], p.big_borrow, w.risk_metas(&ua, Some(w.banks[lb].key), None)),
         "bSm" => w.ix_borrow_with(ua, p.u.auth, lb, p.u.tokens[lb], p.small_borrow, w.risk_metas(&ua, Some(w.banks[lb].key), None)),
@@ -346,7 +353,7 @@ fn in_c10_language(shape: &[&str]) -> bool {
     if i >= shape.len() || !(shape[i] == "sA" || shape[i] == "sA+") {
         return false;
     }
-    if !matches!(*shape.last().unwrap(), "eA" | "eA+") {
+    if !matches!(*shape.last().unwrap(), "eA" | "eA+" | "eA0") {
         return false;
     }
     for s in &shape[i + 1..shape.len() - 1] {
@@ -490,7 +497,7 @@ fn check_c11(p: &Prep, shape: &[&str], stats: &mut Stats) -> Result<(), (String,
             let Some(end_idx) = fs_index(sym).map(|x| x.min(usize::MAX as u64 / 2) as usize) else {
                 return Err(("flash:flag-set-by-non-start".into(), format!("shape {:?}: instruction #{i} ({sym}) set the flash-loan flag", shape)));
             };
-            let ok_shape = end_idx > i && end_idx < shape.len() && matches!(shape[end_idx], "feA" | "feA+");
+            let ok_shape = end_idx > i && end_idx < shape.len() && matches!(shape[end_idx], "feA" | "feA+" | "feA0" | "feA1");
             if !ok_shape {
                 return Err(("flash:start-accepted-malformed".into(), format!("shape {:?}: start at #{i} naming index {end_idx} was accepted", shape)));
             }
@@ -543,7 +550,7 @@ fn check_c11(p: &Prep, shape: &[&str], stats: &mut Stats) -> Result<(), (String,
     if let Some(i) = skipped_at {
         stats.skipped_health_checks += 1;
         // then an end for U by this program at top level appears later …
-        let later_end = shape[i + 1..].iter().any(|s| matches!(*s, "feA" | "feA+"));
+        let later_end = shape[i + 1..].iter().any(|s| matches!(*s, "feA" | "feA+" | "feA0" | "feA1"));
         if !later_end {
             return Err(("flash:unchecked-borrow-committed".into(), format!("shape {:?}: #{i} left the account initially unhealthy and no end instruction follows", shape)));
         }
